@@ -51,6 +51,9 @@ THEOREMS = [
     "Ural.Props.C14.api_unquote_contract",
     "Ural.Props.C14.api_delimiters",
     "Ural.Props.C14.api_functions",
+    # FX-C01-NFKCUSERINFO: safely_unquote_auth_item = the partial, then the NFKC look-alikes of a delimiter re-quoted
+    "Ural.Props.C14.tables_auth_wrapper",
+    "Ural.Props.C14.auth_item_contract",
     "Ural.Props.C14.qsl_contract",
     # safely_quote(string, safe=...) (FX-C01-6e09416: safely_quote_qsl passes safe="/+")
     "Ural.Props.C14.quote_default_safe",
